@@ -11,7 +11,7 @@ date first and the dependent is re-evaluated afterwards (C03).
 
 class Rec:
     __slots__ = ('built', 'failed', 'exists', 'who', 'seen', 'outver', 'content', 'always', 'watch_absent',
-                 'built_run', 'owner', 'phony', 'stamped', 'removed_mark', 'removed_run', 'extra', 'user_seen', 'tolerated')
+                 'built_run', 'owner', 'phony', 'stamped', 'removed_mark', 'removed_run', 'extra', 'user_seen', 'tolerated', 'user_removed')
 
     def __init__(self):
         self.built = False        # a build has been attempted and recorded
@@ -30,6 +30,7 @@ class Rec:
         self.removed_mark = False  # the user removed the produced file and it has not been rebuilt yet
         self.removed_run = -1      # run in which it was rebuilt after such a removal
         self.user_seen = False     # a command has met the user's version of this file
+        self.user_removed = False  # a hand-made file that redo had seen in the place of this (phony) target was removed again
         self.tolerated = False     # the last successful build carried on after a dependency had failed
         self.extra = {}            # checksummed targets redo built out of band on behalf of this target's script -> version
 
@@ -70,6 +71,8 @@ class Model:
             r.owner = 'none'
             if r.user_seen:
                 r.content = None      # redo has seen foreign content: whatever it generates next is a change
+                if r.built and r.phony:
+                    r.user_removed = True     # the rule of a target without output runs again as well (C11: removal hands it back to redo)
             r.user_seen = False
         elif r.built and not r.phony:
             r.removed_mark = True
@@ -102,6 +105,8 @@ class Model:
             return 'failed-last-time'
         if not r.phony and not r.exists:
             return 'file-removed'
+        if r.phony and r.user_removed:
+            return 'user-file-removed'
         if r.who != p.who(n):
             return 'do-changed'
         if r.always and r.built_run != self.run:
@@ -354,6 +359,7 @@ class Model:
         r.who = who
         r.built = True
         r.built_run = self.run
+        r.user_removed = False
         if r.removed_mark:
             r.removed_mark = False
             r.removed_run = self.run
